@@ -384,6 +384,19 @@ def conclude(check, tier, seed, results, timer, extra_coverage=None):
         else:
             new_by_key.setdefault(report.key_str(v["key"]), []).append(v)
     for ks, (rec, c) in sorted(known_hits.items()):
+        wlimit = rec.get("max_fraction_of_workloads")
+        if wlimit is not None:
+            # frequency condition counted in workloads: how many of the workloads that match the entry's
+            # workload_filter show the listed finding
+            flt = rec.get("workload_filter") or {}
+            n_tot = sum(1 for r in results if all((r.get("meta") or {}).get(k) == v for k, v in flt.items()))
+            vs = [v for v in violations if report.match_known([rec], v["key"]) is not None]
+            n_fail = len({v["index"] for v in vs})
+            if n_tot >= 8 and n_fail > wlimit * n_tot:
+                for v in vs:
+                    v["detail"] = f"[listed finding, but it shows in {n_fail} of {n_tot} matching workloads - listed as occurring in at most {wlimit:.0%}] " + v["detail"]
+                new_by_key.setdefault(report.key_str(vs[0]["key"]), []).extend(vs)
+                continue
         limit = rec.get("max_fraction_of_entry_runs")
         if limit is not None:
             # A listed call site that fails far more often than it does on the unchanged tree is not the
